@@ -610,14 +610,13 @@ class TypedNode(Node):
         node_data = node._data
         # is_custom_id = node._data_id != hash(node_data)
 
-        if isinstance(node_data, str):
-            # Node._make_list_entry() would return a plain str, but we always
-            # need a dict
+        data = Node._make_list_entry(node)
+        if isinstance(data, str):
+            # Node._make_list_entry() returns a plain str (if the node has no
+            # custom data_id), but we always need a dict
             data = {
                 "str": node_data,
             }
-        else:
-            data = Node._make_list_entry(node)
 
         if node.kind != ANY_KIND:
             data["kind"] = node.kind
